@@ -19,7 +19,13 @@ def build_demo(src_dir, wt, out):
     san = "-fsanitize=address,undefined -fno-sanitize-recover=all" if "fsanitize" in bt else ""
     libs = " ".join(x for x in ("-llapack", "-lblas", "-lpthread") if x in bt)
     std = "-std=c++17" if "c++17" in bt else ("-std=c++14" if "c++14" in bt else "-std=c++11")
-    cmd = "g++ %s -O1 -g -fopenmp %s %s -I%s/include -I%s/adept %s/demo.cpp %s/adept/*.cpp -o %s %s" % (std, san, flags, wt, wt, src_dir, wt, out, libs)
+    isa = " ".join(sorted(set(re.findall(r"-m(?:sse2|avx512f|avx2|avx|fma)\b", bt) + re.findall(r"-ffp-contract=\w+", bt))))
+    if "tsan" in bt.lower() or "fsanitize=thread" in bt:
+        cmd = "clang++-14 %s -O1 -g -fsanitize=thread %s %s -I%s/include -I%s/adept %s/demo.cpp %s/adept/*.cpp -o %s -lpthread %s" % (
+            std, flags, isa, wt, wt, src_dir, wt, out, libs)
+    else:
+        cmd = "g++ %s -O1 -g -fopenmp %s %s %s -I%s/include -I%s/adept %s/demo.cpp %s/adept/*.cpp -o %s %s" % (
+            std, san, flags, isa, wt, wt, src_dir, wt, out, libs)
     return sh(cmd) + (cmd,)
 
 
